@@ -236,7 +236,12 @@ class Engine(CoreMixin, ExprMixin, CallMixin, StmtMixin, SpecMixin):
         for name, clause in self.clause_items(c.ensures):
             if callable(clause):
                 P = PathView(self, s, entry, result, fr, 'return', None)
-                r = clause(P)
+                try:
+                    r = clause(P)
+                except Unsupported as e:
+                    # the observed values do not have the shape the clause talks about (e.g. an object where a number is expected)
+                    r = [(name + '.shape', z3.BoolVal(False))]
+                    self.notes.add('clause %s of %s could not be evaluated on one path: %s' % (name, c.label, e))
                 items = r if isinstance(r, list) else [(name, r)]
                 for nm, term in items:
                     if term is None:
